@@ -15,6 +15,10 @@ pub struct OligoCfg {
     pub delim: String,
     /// feed the input through the simulated standard input ("-")
     pub stdin: bool,
+    /// 0 = setters called in the order threads, norm, delim, memory, header;
+    /// otherwise the seed of a permutation of that order (the result must not
+    /// depend on the order in which independent settings are made)
+    pub order: u64,
 }
 
 impl OligoCfg {
@@ -27,11 +31,22 @@ impl OligoCfg {
             header: pbool(p, "header"),
             delim: pstr(p, "delim"),
             stdin: pbool(p, "stdin"),
+            order: p.get("order").and_then(|v| v.as_u64()).unwrap_or(0),
         }
     }
     pub fn uses_mmap(&self) -> bool {
         self.norm && !self.stdin
     }
+}
+
+/// Order in which `n` independent setters are called: identity for seed 0,
+/// otherwise a seeded permutation.
+pub fn setter_order(n: usize, seed: u64) -> Vec<usize> {
+    let mut v: Vec<usize> = (0..n).collect();
+    if seed != 0 {
+        verif_rt::rng::Rng::new(seed).shuffle(&mut v);
+    }
+    v
 }
 
 pub struct RunOut {
@@ -75,11 +90,15 @@ pub fn run_oligo(
     let c = cfg.clone();
     let r = sim(sched, io, stdin, abort_at, 4, steps, move || {
         let mut com = composition::oligo::OligoComputer::new(in_path, out_s, c.k);
-        com.set_threads(c.threads);
-        com.set_norm(c.norm);
-        com.set_delim(c.delim.clone());
-        com.set_max_memory(c.memory);
-        com.set_header(c.header);
+        for i in setter_order(5, c.order) {
+            match i {
+                0 => com.set_threads(c.threads),
+                1 => com.set_norm(c.norm),
+                2 => com.set_delim(c.delim.clone()),
+                3 => com.set_max_memory(c.memory),
+                _ => com.set_header(c.header),
+            }
+        }
         com.vectorise()
     });
     let ro = finish(&r, out_path, ());
@@ -236,6 +255,7 @@ pub struct CovCfg {
     pub delim: String,
     pub bin_size: usize,
     pub bin_count: usize,
+    pub order: u64,
 }
 
 impl CovCfg {
@@ -248,6 +268,7 @@ impl CovCfg {
             delim: pstr(p, "delim"),
             bin_size: pu64(p, "bin_size") as usize,
             bin_count: pu64(p, "bin_count") as usize,
+            order: p.get("order").and_then(|v| v.as_u64()).unwrap_or(0),
         }
     }
 }
@@ -268,12 +289,19 @@ pub fn run_cov(
     let c = cfg.clone();
     sim(sched, io, None, abort_at, 4, steps, move || {
         let mut cov = coverage::CovComputer::new(in_path, out_s, c.k, c.bin_size, c.bin_count);
-        cov.set_threads(c.threads);
-        cov.set_norm(c.norm);
-        cov.set_delim(c.delim.clone());
-        cov.set_max_memory(c.gb);
-        if let Some(a) = alt {
-            cov.set_kmer_path(a);
+        let mut alt = alt;
+        for i in setter_order(5, c.order) {
+            match i {
+                0 => cov.set_threads(c.threads),
+                1 => cov.set_norm(c.norm),
+                2 => cov.set_delim(c.delim.clone()),
+                3 => cov.set_max_memory(c.gb),
+                _ => {
+                    if let Some(a) = alt.take() {
+                        cov.set_kmer_path(a);
+                    }
+                }
+            }
         }
         cov.build_table()?;
         cov.compute_coverages();
